@@ -1,8 +1,10 @@
 //! Drivers for the library-level properties. Usage: `libchecks <ID> [--tier quick|thorough] [--replay FILE]`.
 mod c01;
+mod c02;
 mod c03;
 mod c04;
 mod c05;
+mod c06;
 mod c08;
 mod c09;
 mod c11;
@@ -16,9 +18,11 @@ fn main() {
     let id = std::env::args().nth(1).unwrap_or_default();
     match id.as_str() {
         "C01" => c01::run(c01::Mode::C01),
+        "C02" => c02::run(),
         "C03" => c03::run(),
         "C04" => c04::run(),
         "C05" => c05::run(),
+        "C06" => c06::run(),
         "C08" => c08::run(),
         "C09" => c09::run(),
         "C11" => c11::run(),
